@@ -125,9 +125,9 @@ def parseComment (via lvl user req ct text ip mt : String) : Option Req :=
         parseNatMax mt 2147483647 with
   | some user, some req, some ct, some text, some ip, some mt =>
     if user.length ≠ Gen.Comment.IDLEN + 1 || req.length ≠ Gen.RecFile.lenFilename || ip.length ≠ Gen.Comment.IPV4LEN + 1
-        || mt = 0 || text.length > 4096 || (via ≠ "ptt" && via ≠ "bbs") || (lvl ≠ "sysop" && lvl ≠ "user")
+        || mt = 0 || text.length > 4096 || (via ≠ "ptt" && via ≠ "bbs" && via ≠ "api") || (lvl ≠ "sysop" && lvl ≠ "user")
         || (cstr user).isEmpty then none
-    else if via = "bbs" && (lvl ≠ "sysop" || user ≠ sysopID || !canonName req) then none
+    else if (via = "bbs" || via = "api") && (lvl ≠ "sysop" || user ≠ sysopID || !canonName req) then none
     else some { user, name := req, ctype := ct, text, ip, time := timeToken, mtime := (mt : Int) }
   | _, _, _, _, _, _ => none
 
@@ -195,11 +195,11 @@ def stepC10 (d : DSt) (ws : List String) : DSt × String :=
     match parseComment via lvl user req ct text ip mt with
     | none => (d, "bad-op")
     | some q =>
-      let (st, res) := recommend findLinear d.cfg d.st q
+      let (st, res) := if via = "api" then apiRecommend findLinear d.cfg d.st q else recommend findLinear d.cfg d.st q
       ({ d with st }, showOutcome st res)
   | ["fcomment", room, via, lvl, user, req, ct, text, ip, mt] =>
     if !d.have_ || !d.tickets.isEmpty then (d, "bad-op") else
-    match parseNatMax room 40, parseComment via lvl user req ct text ip mt with
+    match parseNatMax room 40, (if via = "api" then none else parseComment via lvl user req ct text ip mt) with
     | some room, some q =>
       let (st, res) := recommendFault findLinear d.cfg d.st q room
       ({ d with st }, showOutcome st res)
@@ -211,7 +211,7 @@ def stepC10 (d : DSt) (ws : List String) : DSt × String :=
     | some q =>
       let target := (findLinear d.st.dir.bytes (d.st.dir.bytes.length / dirSz) q.name).map
         (fun k => cstr ((record d.st.dir.bytes dirSz k).take Gen.RecFile.lenFilename))
-      if !ticketId id || d.tickets.any (fun e => e.1 == id) || d.tickets.length ≥ 8
+      if via = "api" || !ticketId id || d.tickets.any (fun e => e.1 == id) || d.tickets.length ≥ 8
           || (target.isSome && d.tickets.any (fun e => e.2.1 == target)) then (d, "bad-op")
       else ({ d with tickets := d.tickets ++ [(id, target, phaseA findLinear d.cfg d.st q)] }, "started")
   | ["par", rounds, ct, text, mt] =>
@@ -223,6 +223,10 @@ def stepC10 (d : DSt) (ws : List String) : DSt × String :=
         let (st, nok) := parRun d.cfg d.st names rounds ct text (mt : Int)
         ({ d with st }, s!"ok accepted={nok} {stateStr st}")
     | _, _, _, _, _ => (d, "bad-op")
+  | ["stamp", days] =>
+    match parseNatMax days 400 with
+    | some _ => (d, "ok")     -- the stamp of another time: no effect on the board (the time of a line is a parameter)
+    | none => (d, "bad-op")
   | ["zone", z] =>
     -- the time part of a line is a parameter of the model (masked on the implementation side after it was judged)
     if !d.tickets.isEmpty || !(["Asia/Taipei", "UTC", "America/New_York", "Pacific/Kiritimati", "Asia/Kathmandu"].contains z)
